@@ -197,6 +197,9 @@ pub fn leaf_rotation() -> Vec<Ast> {
         Ast::Ref("\u{e9}".into()),
         // a name that is one character Unicode calls whitespace and the language does not
         Ast::Ref("\u{a0}".into()),
+        // a literal that ends in a backslash: there are no escapes, so the quote after it closes
+        // the literal (inside parentheses, lists and calls as well)
+        Ast::Str("C:\\".into()),
     ]
 }
 
